@@ -82,6 +82,11 @@ def run(ck: vlib.Check):
     for i in range(nfiles):
         nb = [3, 1, 5, 2, 7][i % 5] if i < 5 else rng.choice([1, 2, 3, 4, 5, 6, 7])
         f = G.gen_file(rng, nblocks=nb, small=(i % 2 == 1))
+        # the event counter in the file tail is a free word of the format (RawFormat.wf_file asks only for a 32-bit word; the reader reports
+        # it as `entries` and decodes the blocks that are there): a tail that was never filled in (0) or is stale must not change what is
+        # read or concatenated (round 8: concatenate() skipping files whose counter is 0)
+        if i == 1: f["entries"] = 0
+        if i == 3: f["entries"] = f["entries"] + 5
         w = G.enc_file(f)
         p = fdir / f"f{i}.raw"
         write_file(p, w)
